@@ -200,7 +200,7 @@ def seq_nontrivial(kinds):
 
 # ------------------------------------------------------------------ random part
 
-WORDS = ["a", "B", "cell", "x y", "é中", "1", "<&>", "t\vu", "\vlead", "z "]
+WORDS = ["a", "B", "cell", "x y", "é中", "1", "<&>", "t\vu", "\vlead", "z ", " ", "\v"]
 
 
 def case_strategy(max_dim=12, max_ops=15):
